@@ -1042,6 +1042,10 @@ def run(ctx):
     ctx.guarded(r, r_reference_eval)
     r = ctx.rule("R3", "import/export push and pop operands in matching order and rebuild with the same opcode", 21)
     ctx.guarded(r, r3_stack_discipline)
+    from . import C13 as C13_
+
+    r = ctx.rule("R3c", "the importer's identity-keyed cache is keyed by (frame, node address), reused only for operator nodes, and starts empty in every call (addresses are only meaningful while the imported tree is alive)", 5)
+    ctx.guarded(r, C13_.r4_cache_keys)
     r = ctx.rule("R6", "TreeOp eq / hash cover the same payload, walk the same children; drop is iterative", 32)
     ctx.guarded(r, r6_tree_eq_hash_drop)
     r = ctx.rule("R7", "deep-tree entry points are loops, not recursion", 7)
